@@ -1009,6 +1009,51 @@ def clause_h(ctx: Context, idx) -> None:
                           f"`{g}` is a module-level cache filled in {f.name} under a key that does not cover `{v}`, which the stored value is computed "
                           f"from: a later call with another `{v}` returns the value of an earlier one, so a seeded run depends on what ran before it in "
                           f"the same process", v)
+    # identity-keyed form: `cached_array is current_array` as a validity test of a cache.  The arrays a state keeps (`_m`, `_C`, `_G`,
+    # `_state_vector`, ...) are updated through connector.assign, which under the NumPy connector writes in place: the object stays the same
+    # while its content changes, so identity is not a version stamp and the cached value goes stale after the next gate.
+    assign_updated: Set[str] = set()
+    for m in idx.modules.values():
+        for a in ast.walk(m.tree):
+            if isinstance(a, ast.Assign) and len(a.targets) == 1 and isinstance(a.targets[0], ast.Attribute) and isinstance(a.value, ast.Call) \
+                    and isinstance(a.value.func, ast.Attribute) and a.value.func.attr == "assign" and a.value.args \
+                    and isinstance(a.value.args[0], ast.Attribute) and a.value.args[0].attr == a.targets[0].attr:
+                assign_updated.add(a.targets[0].attr)
+    ctx.require_floor("C11h attributes updated through connector.assign", len(assign_updated), 4)
+
+    def identity_keyed(tree: ast.AST) -> List[Tuple[ast.FunctionDef, ast.Compare, str]]:
+        out = []
+        for f in ast.walk(tree):
+            if not isinstance(f, ast.FunctionDef):
+                continue
+            held = sorted({x.attr for x in ast.walk(f) if isinstance(x, ast.Attribute) and x.attr in assign_updated and isinstance(x.ctx, ast.Load)
+                           and isinstance(x.value, ast.Name) and x.value.id == "self"})
+            if not held:
+                continue
+            for c in ast.walk(f):
+                if isinstance(c, ast.Compare) and len(c.ops) == 1 and isinstance(c.ops[0], (ast.Is, ast.IsNot)) \
+                        and all(isinstance(o_, (ast.Name, ast.Attribute, ast.Subscript)) and not any(isinstance(y_, ast.Call) for y_ in ast.walk(o_))
+                                for o_ in (c.left, c.comparators[0])):
+                    # `type(a) is type(b)`, `x is None`, `cls is Base` are not array identities
+                    if any(isinstance(o_, ast.Name) and o_.id[:1].isupper() for o_ in (c.left, c.comparators[0])):
+                        continue
+                    out.append((f, c, ", ".join(held)))
+        return out
+
+    for mname, m in sorted(idx.modules.items()):
+        if not mname.startswith("piquasso."):
+            continue
+        for f, c, held in identity_keyed(m.tree):
+            n_mod += 1
+            key = f"{mname}:{f.name}|identity of in-place updated arrays as cache key"
+            ctx.violation("C11h", key, m.path, c.lineno,
+                          f"{f.name} decides by `{norm(c)[:60]}` whether something computed from self.{held} is still valid; these arrays are updated "
+                          f"through connector.assign, which writes in place under the NumPy connector, so the same object holds new content and the "
+                          f"cached value of an earlier call is returned after the state has changed", norm(c)[:100])
+    fx2 = ast.parse("class S:\n    def calc(self):\n        key = (self._m, self._C)\n        if self._cache is not None and all(a is b for a, b in zip(self._cache[0], key)):\n"
+                    "            return self._cache[1]\n        return 1\n    def other(self, o):\n        return self._m is None or type(self) is type(o)\n")
+    if [(f.name) for f, _, _ in identity_keyed(fx2)] != ["calc"]:
+        raise AnalysisError("C11h: the identity-key rule does not behave on its inline fixture")
     fhits = module_caches(ftree)
     if not any(h[3] == "instruction._params['mean_photon_number']" for h in fhits):
         raise AnalysisError("C11h: the module-level positive fixture in stubs/memo_key_fixture.py is no longer matched")
